@@ -23,6 +23,9 @@ Exp(f, k, M) == IF f = <<>> THEN <<>>
                 ELSE IF k + 1 = M THEN <<Head(f), "n">> \o Exp(Tail(f), 0, M)
                 ELSE <<Head(f)>> \o Exp(Tail(f), k + 1, M)
 
+\* in non-plain mode (REMOTE|...| records, one per output line) the output is the same followed by a newline if the file lacks it
+ExpMode(f, M, plain) == LET e == Exp(f, 0, M) IN IF ~plain /\ e # <<>> /\ e[Len(e)] # "n" THEN Append(e, "n") ELSE e
+
 \* ---- Impl: readFile.read / handleReadByte / handleReadError (cat mode)
 RECURSIVE Lines(_, _, _)
 Lines(f, msg, M) == IF f = <<>> THEN (IF msg = <<>> THEN <<>> ELSE <<msg>>)      \* EOF: flush the unterminated line
@@ -31,7 +34,9 @@ Lines(f, msg, M) == IF f = <<>> THEN (IF msg = <<>> THEN <<>> ELSE <<msg>>)     
                          ELSE IF Len(m2) >= M THEN <<Append(m2, "n")>> \o Lines(Tail(f), <<>>, M)   \* split a long line
                          ELSE Lines(Tail(f), m2, M)
 \* baseHandler.Read(p): frame = [header] content delimiter; n = copy(p, frame)
-Frame(line, plain) == (IF plain THEN <<>> ELSE <<"h", "h">>) \o line \o <<"d">>
+\* in non-plain mode a record is a whole output line: an unterminated last line gets its newline
+Term(line, plain) == IF ~plain /\ line[Len(line)] # "n" THEN Append(line, "n") ELSE line
+Frame(line, plain) == (IF plain THEN <<>> ELSE <<"h", "h">>) \o Term(line, plain) \o <<"d">>
 Cut(fr, P) == IF KF_FrameLongerThanBuffer THEN SubSeq(fr, 1, IF Len(fr) < P THEN Len(fr) ELSE P) ELSE fr  \* repaired: the rest goes out with the next Read
 RECURSIVE Stream(_, _, _)
 Stream(ls, plain, P) == IF ls = <<>> THEN <<>> ELSE Cut(Frame(Head(ls), plain), P) \o Stream(Tail(ls), plain, P)
@@ -56,5 +61,5 @@ Init == f \in Files /\ M \in Ms /\ P \in Ps /\ plain \in BOOLEAN
 Next == UNCHANGED vars
 Spec == Init /\ [][Next]_vars
 \* Impl = Ref outside the named deviations; the deviation list is complete for the explored scope
-Faithful == (~HasD(f) /\ ~(plain /\ LeadingDot(f, M)) /\ ~(KF_FrameLongerThanBuffer /\ TooLong(f, M, P, plain))) => Out(f, M, P, plain) = Exp(f, 0, M)
+Faithful == (~HasD(f) /\ ~(plain /\ LeadingDot(f, M)) /\ ~(KF_FrameLongerThanBuffer /\ TooLong(f, M, P, plain))) => Out(f, M, P, plain) = ExpMode(f, M, plain)
 =============================================================================
